@@ -1,7 +1,7 @@
 (** C07 - each subexpression runs once, left to right; conditionals are lazy; evaluation stops at the first error.
     Independence statements: the result, the final state and the call log (part of the state) of a node do not depend
     on the parts that must not run. For arbitrary handlers. *)
-From EE Require Import Chars OpTable Decimal Ast Value Names Lexer Parser Eval EvalLemmas.
+From EE Require Import Chars OpTable Decimal Ast Value Names Lexer Parser Eval EvalLemmas ExecInv.
 Open Scope N_scope.
 
 Section C07.
@@ -55,8 +55,30 @@ Theorem C07_call_logged : forall h args st,
   nassoc h (s_scripts st) = None ->
   call_script b reenter h args st = (EOk VNone, set_log st ((h, args) :: s_log st)).
 Proof. intros h args st H. unfold call_script. rewrite H. reflexivity. Qed.
+
+(* the call log is append-only: evaluation never removes, reorders or rewrites an entry - whatever the program and the
+   handlers do (provided the re-entry function, i.e. nested evaluations started by handlers, is append-only too).
+   With C07_call_logged (one entry per invocation, at the moment of the invocation) this is "exactly once, in order". *)
+Definition extends (L0 : list (hid * list value)) (st : state) : Prop := exists l, s_log st = l ++ L0.
+
+Theorem C07_log_append_only : forall L0 c e st,
+  (forall s c' st', extends L0 st' -> extends L0 (snd (reenter s c' st'))) ->
+  extends L0 st -> extends L0 (snd (exec e c st)).
+Proof.
+  intros L0 c e st HR H.
+  apply (inv_exec b reenter c (extends L0)); try assumption; clear; unfold extends.
+  - intros st h args [l E]. exists ((h, args) :: l). cbn [set_log s_log]. rewrite E. reflexivity.
+  - intros st i [l E]. exists l. exact E.
+  - intros st n v [l E]. exists l. exact E.
+  - intros st [l E]. exists l. unfold ensure_init. destruct (s_inited st); exact E.
+  - intros st n h [l E]. exists l. exact E.
+  - intros st n h [l E]. exists l. exact E.
+  - intros st n h [l E]. exists l. exact E.
+  - intros st n cfg h [l E]. exists l. exact E.
+Qed.
 End C07.
 Print Assumptions C07_lazy.
+Print Assumptions C07_log_append_only.
 Print Assumptions C07_stop.
 Print Assumptions C07_operands_in_order.
 Print Assumptions C07_call_logged.
